@@ -181,7 +181,8 @@ type Hooks struct {
 	Return func(st *State, ret *ssa.Return, results []Val)
 	// Panic is invoked at explicit panics.
 	Panic func(st *State, p *ssa.Panic)
-	// ClassOf lets a rule refine the error class of a concrete type put into an interface.
+	// Stop cuts a path short (checked at every block entry).
+	Stop      func(st *State) bool
 	MaxVisits int
 	MaxPaths  int
 	Paths     int
@@ -384,6 +385,9 @@ func Explore(fn *ssa.Function, b *ssa.BasicBlock, idx int, pred *ssa.BasicBlock,
 	}
 	if idx == 0 {
 		if st.Visit[b] >= max {
+			return
+		}
+		if h.Stop != nil && h.Stop(st) {
 			return
 		}
 		st.Visit[b]++
